@@ -6,12 +6,29 @@ open KsiVerif KsiVerif.Tlv KsiVerif.Template KsiVerif.VerifyDrv
 
 def st1 (out : String) : String := (words out).headD "?"
 
+/-- the length an encoded element declares for itself (header included), read off the octets directly -/
+def declaredLen : List UInt8 → Option Nat
+  | b0 :: b1 :: rest =>
+    if b0.toNat &&& 0x80 != 0 then
+      match rest with
+      | b2 :: b3 :: _ => some (4 + b2.toNat * 256 + b3.toNat)
+      | _ => none
+    else some (2 + b1.toNat)
+  | _ => none
+
+/-- `blob_reader_exact` judged on the implementation's answer: what is accepted as one element is exactly one element -/
+def exactSpec (raw : List UInt8) (out : String) : Option String :=
+  if st1 out == "P0" && declaredLen raw != some raw.length then
+    some s!"accepted-{raw.length}-octets-as-one-element-that-declares-{(declaredLen raw).getD 0}"
+  else none
+
 def handle (inp out : String) : String :=
   match words inp with
   | "sig" :: h :: _ =>
     match ofHex h with
     | some raw =>
       let ms := match parseSignature cfg raw with | .ok _ => "P0" | .error e => s!"P{e}"
+      if let some why := exactSpec raw out then s!"specfail sig {why}" else
       if ms == st1 out then s!"ok sig:{ms}" else s!"diff sig:{st1 out} model={ms}"
     | none => "skip bad-hex"
   | "apdu" :: ver :: h :: _ =>
@@ -30,6 +47,7 @@ def handle (inp out : String) : String :=
     match ofHex h with
     | some raw =>
       let ms := match parseBlob raw with | .ok _ => "P0" | .error e => s!"P{e}"
+      if let some why := exactSpec raw out then s!"specfail tlv {why}" else
       if ms == st1 out then s!"ok tlv:{ms}" else s!"diff tlv:{st1 out} model={ms}"
     | none => "skip bad-hex"
   | "ftlv" :: h :: _ =>
